@@ -1,0 +1,66 @@
+//go:build verif
+
+package quicmemberlist
+
+import (
+	"net"
+
+	"github.com/spikeekips/mitum/base"
+)
+
+// VerifMembersPool exports the unexported member table (membersPool) of
+// Memberlist for the verification harness. Every method forwards to the
+// method of the same name, nothing else.
+type VerifMembersPool struct {
+	p *membersPool
+}
+
+func NewVerifMembersPool() *VerifMembersPool {
+	return &VerifMembersPool{p: newMembersPool()}
+}
+
+func (v *VerifMembersPool) Empty() { v.p.Empty() }
+
+func (v *VerifMembersPool) Exists(k *net.UDPAddr) bool { return v.p.Exists(k) }
+
+func (v *VerifMembersPool) Get(k *net.UDPAddr) (Member, bool) { return v.p.Get(k) }
+
+func (v *VerifMembersPool) MembersLenOthers(node base.Address, addr *net.UDPAddr) (int, int, bool) {
+	return v.p.MembersLenOthers(node, addr)
+}
+
+func (v *VerifMembersPool) MembersLen(node base.Address) int { return v.p.MembersLen(node) }
+
+func (v *VerifMembersPool) Set(member Member) bool { return v.p.Set(member) }
+
+func (v *VerifMembersPool) Remove(k *net.UDPAddr) (bool, error) { return v.p.Remove(k) }
+
+func (v *VerifMembersPool) Len() int { return v.p.Len() }
+
+func (v *VerifMembersPool) Traverse(f func(Member) bool) { v.p.Traverse(f) }
+
+// NodeMembers returns a copy of the per-node member list.
+func (v *VerifMembersPool) NodeMembers(node base.Address) []Member {
+	i, found := v.p.members.Value(node.String())
+	if !found || len(i) < 1 {
+		return nil
+	}
+
+	l := make([]Member, len(i))
+	copy(l, i)
+
+	return l
+}
+
+// VerifMembersPool returns the member table of the Memberlist.
+func (srv *Memberlist) VerifMembersPool() *VerifMembersPool {
+	return &VerifMembersPool{p: srv.members}
+}
+
+// VerifWhenJoined calls the join event handler of the Memberlist, like
+// memberlist's NotifyJoin event does.
+func (srv *Memberlist) VerifWhenJoined(member Member) { srv.whenJoined(member) }
+
+// VerifWhenLeft calls the leave event handler of the Memberlist, like
+// memberlist's NotifyLeave event does.
+func (srv *Memberlist) VerifWhenLeft(member Member) { srv.whenLeft(member) }
